@@ -13,6 +13,7 @@ import (
 
 	"xmc/core"
 	"xmc/gen"
+	"xmc/ref"
 )
 
 // C14, environment sweep. The histories explore every short call sequence on a few inputs; the sweep turns
@@ -393,5 +394,111 @@ func c14CompilerOptions(c *core.Ctx) {
 			}
 			return true
 		})
+	}
+}
+
+// ---- a builder is extended AFTER it has built a parser: the earlier parser is unaffected.
+// k interceptors (or operators) of one kind are installed, a parser is built, ONE more item of the same kind
+// is installed (it would change the result), and only then the first parser parses. It must give what a
+// parser of an identical k-item builder gives that was never extended. k = 0..17 covers every slice capacity
+// class of the builder's lists.
+
+var c14LateKinds = []string{"statement interceptor", "expression interceptor", "token interceptor", "infix operator", "prefix operator"}
+
+func c14LateBuilder(kind, k int, extra bool) (*parser.Builder, func()) {
+	lb := lexer.NewBuilder()
+	pb := parser.NewBuilder(lb)
+	addOne := func(i int, loud bool) {
+		switch kind {
+		case 0:
+			pb.UseStatementInterceptor(func(p *parser.Parser, next func() ast.Statement) ast.Statement {
+				if loud && p.CurrentToken.Type == token.LET {
+					p.NextToken() // the late plugin swallows the keyword: a visibly different result
+				}
+				return next()
+			})
+		case 1:
+			pb.UseExpressionInterceptor(func(p *parser.Parser, next func() ast.Expression) ast.Expression {
+				e := next()
+				if loud {
+					return &cNode{Kind: "cpre", Tok: token.Token{Literal: "late"}, R: e}
+				}
+				return e
+			})
+		case 2:
+			lb.UseTokenInterceptor(func(l *lexer.Lexer, next func() token.Token) token.Token {
+				t := next()
+				if loud && t.Type == token.IDENT {
+					t.Literal = "late_" + t.Literal
+				}
+				return t
+			})
+		case 3:
+			ty := lb.RegisterTokenType(fmt.Sprintf("op%d", i))
+			pb.RegisterInfixOperator(ty, 3+i%8, mkInfix)
+		case 4:
+			ty := lb.RegisterTokenType(fmt.Sprintf("pre%d", i))
+			pb.RegisterPrefixOperator(ty, mkPrefix)
+		}
+	}
+	if kind >= 3 {
+		// spellings op0..opN / pre0..preN are retyped by one token interceptor installed first
+		lb.UseTokenInterceptor(func(l *lexer.Lexer, next func() token.Token) token.Token {
+			t := next()
+			if t.Type == token.IDENT && (strings.HasPrefix(t.Literal, "op") || strings.HasPrefix(t.Literal, "pre")) {
+				t.Type = lb.RegisterTokenType(t.Literal)
+			}
+			return t
+		})
+	}
+	for i := 0; i < k; i++ {
+		addOne(i, false)
+	}
+	return pb, func() { addOne(k, true) }
+}
+
+func c14LateCheck(kind, k int, src string) (kind2, detail string) {
+	defer func() {
+		if r := recover(); r != nil {
+			kind2, detail = "late-extension-panic", fmt.Sprintf("%d %ss, Build, one more, ParseProgram of the first parser on %q: %s", k, c14LateKinds[kind], src, panicText(r))
+		}
+	}()
+	ref0, _ := c14LateBuilder(kind, k, false)
+	want := parseWith(ref0, src)
+	pb, extend := c14LateBuilder(kind, k, false)
+	p := pb.Build(src)
+	extend()
+	later := pb.Build(src) // the builder goes on being used
+	prog, err := p.ParseProgram()
+	errs := p.Errors()
+	later.ParseProgram()
+	if want.Panic != "" {
+		return "", ""
+	}
+	if (err == nil) != (want.Err == nil) || errsText(errs) != errsText(want.Errs) || dumpTree(prog) != dumpTree(want.Prog) {
+		return "parser-affected-by-later-extension", fmt.Sprintf("a builder with %d %ss built a parser, got one more %s, then the first parser parsed %q: tree %s errors %q; a parser of an identical builder that was never extended: tree %s errors %q",
+			k, c14LateKinds[kind], c14LateKinds[kind], src, ref.XStmts(prog.Statements), errsText(errs), ref.XStmts(want.Prog.Statements), errsText(want.Errs))
+	}
+	return "", ""
+}
+
+func c14Late(c *core.Ctx) {
+	probes := []string{"let a = 1; b = a + 2", "f(x)\nlet y = x op1 z", "pre0 a; let q = pre1 b op0 c", "if (a) { let t = b }"}
+	n := 0
+	for kind := range c14LateKinds {
+		for k := 0; k <= 17; k++ {
+			for _, src := range probes {
+				n++
+				if !c.Mine(int64(n)) || c.Tick() {
+					continue
+				}
+				c.Cur(fmt.Sprintf("%d %ss, then one more: %q", k, c14LateKinds[kind], src))
+				c.Inc("late_extension_cases")
+				if kd, d := c14LateCheck(kind, k, src); kd != "" && c.ShrinkOK(kd+c14LateKinds[kind]) {
+					pl, _ := json.Marshal(c14Payload{Clause: "late", Text: []string{fmt.Sprint(kind), fmt.Sprint(k), src}})
+					c.Violate(core.Violation{Kind: kd, Config: c14LateKinds[kind], Case: fmt.Sprintf("%d %ss + 1 after Build; %q", k, c14LateKinds[kind], src), Detail: d, Payload: pl, Size: k})
+				}
+			}
+		}
 	}
 }
